@@ -1,111 +1,161 @@
 package common
 
 import (
+	"bytes"
 	"encoding/json"
 	"fmt"
+	"io"
+	"strings"
 
 	r "github.com/DemoHn/Zn/pkg/runtime"
 	"github.com/DemoHn/Zn/pkg/value"
 )
 
 func HashMapToJSONString(hm *value.HashMap) (*value.String, error) {
-	data, err := json.Marshal(buildPlainValueFromElement(hm))
-	if err != nil {
-		return nil, value.ThrowException("生成JSON失败 - " + err.Error())
-	}
-	return value.NewString(string(data)), nil
+	return ElementToJSONString(hm)
 }
 
+// JSONStringToElement - parse a JSON object; keys keep their order in the document
 func JSONStringToElement(jsonStr *value.String) (r.Element, error) {
-	plainMap := map[string]any{}
-	vdata := []byte(jsonStr.GetValue())
-	if err := json.Unmarshal(vdata, &plainMap); err != nil {
+	dec := json.NewDecoder(strings.NewReader(jsonStr.GetValue()))
+	tk, err := dec.Token()
+	if err != nil {
 		return nil, value.ThrowException("解析JSON失败 - " + err.Error())
 	}
-
-	return buildElementFromPlainValue(plainMap), nil
+	// same as before: only a JSON object is accepted as the top-level value
+	if d, ok := tk.(json.Delim); !ok || d != '{' {
+		return nil, value.ThrowException("解析JSON失败 - 顶层须为对象")
+	}
+	elem, err := decodeJSONValue(dec, tk)
+	if err != nil {
+		return nil, value.ThrowException("解析JSON失败 - " + err.Error())
+	}
+	// no trailing data is allowed
+	if _, err := dec.Token(); err != io.EOF {
+		return nil, value.ThrowException("解析JSON失败 - 文本末尾有多余内容")
+	}
+	return elem, nil
 }
 
+// ElementToJSONString - keys of a hashmap are written in insertion order
 func ElementToJSONString(elem r.Element) (*value.String, error) {
-	plainValue := buildPlainValueFromElement(elem)
-	jsonStr, err := json.Marshal(plainValue)
-	if err != nil {
+	var buf bytes.Buffer
+	if err := encodeJSONValue(&buf, elem); err != nil {
 		return nil, value.ThrowException("生成JSON失败 - " + err.Error())
 	}
-	return value.NewString(string(jsonStr)), nil
+	return value.NewString(buf.String()), nil
 }
 
-func buildPlainValueFromElement(elem r.Element) any {
+func encodeJSONValue(buf *bytes.Buffer, elem r.Element) error {
 	switch vv := elem.(type) {
-	case *value.Null:
-		return nil
 	case *value.String:
-		return vv.String()
+		return encodeJSONScalar(buf, vv.String())
 	case *value.Bool:
-		return vv.GetValue()
+		return encodeJSONScalar(buf, vv.GetValue())
 	case *value.Number:
-		return vv.GetValue()
+		// NaN and Inf are rejected by json.Marshal
+		return encodeJSONScalar(buf, vv.GetValue())
 	case *value.Array:
-		var resultList []interface{}
-		for _, vi := range vv.GetValue() {
-			resultList = append(resultList, buildPlainValueFromElement(vi))
+		buf.WriteByte('[')
+		for idx, vi := range vv.GetValue() {
+			if idx > 0 {
+				buf.WriteByte(',')
+			}
+			if err := encodeJSONValue(buf, vi); err != nil {
+				return err
+			}
 		}
-		return resultList
+		buf.WriteByte(']')
+		return nil
 	case *value.HashMap:
-		resultMap := map[string]any{}
-		for k, vi := range vv.GetValue() {
-			resultMap[k] = buildPlainValueFromElement(vi)
+		buf.WriteByte('{')
+		for idx, k := range vv.GetKeyOrder() {
+			if idx > 0 {
+				buf.WriteByte(',')
+			}
+			if err := encodeJSONScalar(buf, k); err != nil {
+				return err
+			}
+			buf.WriteByte(':')
+			if err := encodeJSONValue(buf, vv.GetValue()[k]); err != nil {
+				return err
+			}
 		}
-		return resultMap
+		buf.WriteByte('}')
+		return nil
 	}
+	// *value.Null and other types (same as before)
+	buf.WriteString("null")
 	return nil
 }
 
-func buildElementFromPlainValue(item any) r.Element {
-	if item == nil {
-		return value.NewNull()
+func encodeJSONScalar(buf *bytes.Buffer, v any) error {
+	data, err := json.Marshal(v)
+	if err != nil {
+		return err
 	}
-	switch vv := item.(type) {
-	//// case#1: numbers
-	// may cause precision lose !!
-	case uint:
-	case uint8:
-	case uint16:
-	case uint32:
-	case uint64:
-	case int:
-	case int8:
-	case int16:
-	case int32:
-	case int64:
-		return value.NewNumber(float64(vv))
+	buf.Write(data)
+	return nil
+}
+
+// decodeJSONValue - build the element that starts with token `tk` (already read from `dec`)
+func decodeJSONValue(dec *json.Decoder, tk json.Token) (r.Element, error) {
+	switch vv := tk.(type) {
+	case nil:
+		return value.NewNull(), nil
 	case float64:
-		return value.NewNumber(vv)
-	//// case#2: strings
-	case []rune:
-		return value.NewString(string(vv))
+		return value.NewNumber(vv), nil
 	case string:
-		return value.NewString(vv)
-	//// case#3: booleans
+		return value.NewString(vv), nil
 	case bool:
-		return value.NewBool(vv)
-	case map[string]any:
-		target := value.NewEmptyHashMap()
-		for k, v := range vv {
-			finalValue := buildElementFromPlainValue(v)
-			target.AppendKVPair(value.KVPair{
-				Key:   k,
-				Value: finalValue,
-			})
+		return value.NewBool(vv), nil
+	case json.Delim:
+		switch vv {
+		case '{':
+			target := value.NewEmptyHashMap()
+			for dec.More() {
+				keyTk, err := dec.Token()
+				if err != nil {
+					return nil, err
+				}
+				key, ok := keyTk.(string)
+				if !ok {
+					return nil, fmt.Errorf("invalid object key")
+				}
+				valTk, err := dec.Token()
+				if err != nil {
+					return nil, err
+				}
+				item, err := decodeJSONValue(dec, valTk)
+				if err != nil {
+					return nil, err
+				}
+				target.AppendKVPair(value.KVPair{Key: key, Value: item})
+			}
+			// consume '}'
+			if _, err := dec.Token(); err != nil {
+				return nil, err
+			}
+			return target, nil
+		case '[':
+			varr := value.NewEmptyArray()
+			for dec.More() {
+				itemTk, err := dec.Token()
+				if err != nil {
+					return nil, err
+				}
+				item, err := decodeJSONValue(dec, itemTk)
+				if err != nil {
+					return nil, err
+				}
+				varr.AppendValue(item)
+			}
+			// consume ']'
+			if _, err := dec.Token(); err != nil {
+				return nil, err
+			}
+			return varr, nil
 		}
-		return target
-	case []any:
-		varr := value.NewEmptyArray()
-		for _, vitem := range vv {
-			varr.AppendValue(buildElementFromPlainValue(vitem))
-		}
-		return varr
 	}
-	// default fallback logic
-	return value.NewString(fmt.Sprintf("%v", item))
+	return nil, fmt.Errorf("unexpected token %v", tk)
 }
